@@ -194,12 +194,18 @@ def _bounded(prog, g, rd, p_use, f, idx, bound_field, ctx, depth=0, seen=None):
             if is_bound(l) and not is_bound(r):
                 op, l, r = FLIP[op], r, l
             if is_bound(r):
-                # x op M ? a : b
+                # x op M ? a : b   -- x must be one stable snapshot (a local), not an expression evaluated twice:
+                # `q.size() >= M ? M : q.size()` reads the queue twice and producers add in between
                 a, b = n['a'], n['b']
+                stable = strip_casts(f, l)['k'] == 'ref' and strip_casts(f, l).get('sk') in ('local', 'param')
                 if op in ('>=', '>') and is_bound(a) and expr_equal(f, b, l):
-                    return True, 'x %s M ? M : x' % op, None
+                    if stable:
+                        return True, 'x %s M ? M : x' % op, None
+                    return False, 'x %s M ? M : x where x is re-evaluated (%s read twice): the value used can exceed the one compared' % (op, cond_text(f, l)), None
                 if op in ('<=', '<') and is_bound(b) and expr_equal(f, a, l):
-                    return True, 'x %s M ? x : M' % op, None
+                    if stable:
+                        return True, 'x %s M ? x : M' % op, None
+                    return False, 'x %s M ? x : M where x is re-evaluated (%s read twice): the value used can exceed the one compared' % (op, cond_text(f, l)), None
         va = _bounded(prog, g, rd, p_use, f, n['a'], bound_field, ctx, depth + 1, seen)
         vb = _bounded(prog, g, rd, p_use, f, n['b'], bound_field, ctx, depth + 1, seen)
         if va[0] is True and vb[0] is True:
